@@ -149,4 +149,17 @@ CHECKS = {
         ],
         assumptions=[],
     ),
+    "C20": dict(
+        level="model_checking",
+        engine="S+H+W",
+        technique="explicit-state BFS over pool-operation histories with tracked connections and invariants on every state + exhaustive preemption-bounded schedule exploration of concurrent pool actors + exhaustive enumeration of message scripts through upgrade tunnels over real connections",
+        text="TODO",
+        note="TODO",
+        claimed=False,
+        jobs=[
+            dict(name="c20poolh", part="PoolH", pkg=LB, run="TestVerifC20PoolH", mode="instr", shards=dict(quick=8, thorough=8), timeout=dict(quick=600, thorough=3000)),
+            dict(name="c20pools", part="PoolS", pkg=LB, run="TestVerifC20PoolS", mode="instr", shards=dict(quick=12, thorough=16), timeout=dict(quick=600, thorough=3000)),
+        ],
+        assumptions=[],
+    ),
 }
